@@ -519,6 +519,17 @@ static void gen(const std::string& tier, uint64_t seed) {
         if ((i & 3) == 0) { runv("lenstra", {p * p, Integer(5000), Integer(10)}); runv("lenstra", {p, Integer(5000), Integer(10)}); }
     }
     for (long n = -30; n < (th ? 30000 : 6000); ++n) runv("erat", {Integer((int64_t)n)});
+    {   // the sieve on structured larger arguments (array of n+1 shorts; the int counters are fine far below 2^31): squares and cubes of primes
+        // (the walk ends exactly at i = sqrt n), p*q with close and distant factors, powers of 2 times an odd part, primes, and neighbours
+        std::vector<Integer> er;
+        const unsigned long Q[] = {3, 5, 7, 11, 13, 47, 97, 101, 251, 257, 509, 997, 1009, 1999, 2003};
+        for (unsigned long a : Q) for (unsigned long b : Q) if (a <= b) { er.push_back(Integer((uint64_t)(a * b))); er.push_back(Integer((uint64_t)(a * b + 2))); er.push_back(Integer((uint64_t)(2 * a * b))); }
+        for (unsigned long a : Q) if (a < 160) { er.push_back(pw(Integer((uint64_t)a), 3)); er.push_back(pw(Integer((uint64_t)a), 3) * 4); }
+        for (unsigned e = 1; e <= 22; ++e) { er.push_back(pw(Integer(2), e)); er.push_back(pw(Integer(2), e) + 1); er.push_back(pw(Integer(2), e) - 1); er.push_back(pw(Integer(2), e) * 3); er.push_back(pw(Integer(2), e) * 15); }
+        for (unsigned e = 1; e <= 13; ++e) { er.push_back(pw(Integer(3), e)); er.push_back(pw(Integer(3), e) * 5); er.push_back(pw(Integer(3), e) * 2 + 0); }
+        for (int i = 0; i < (th ? 400 : 60); ++i) { Integer r = rnd_bits(g, 14 + (unsigned)g.below(9)); er.push_back(r); er.push_back(-r); er.push_back(gmp_nextprime(r)); }
+        for (auto& n : er) runv("erat", {n});
+    }
     // ---- the same container-output functions with a pre-filled / reused output container
     {
         std::vector<Integer> light;
